@@ -179,6 +179,39 @@ def gen_spline(rng):
     return c
 
 
+RHS_POOL = [Fraction(0), Fraction(2), Fraction(-2), Fraction(4), Fraction(-8), Fraction(1, 2), Fraction(-1), Fraction(3),
+            Fraction(-3, 2), Fraction(7, 4), Fraction(-5), Fraction(9, 4)]
+
+
+def gen_multi(rng, k):
+    """one EQConstraintComp / BalanceComp carrying 2-4 equations with a random mix and ORDER of use_mult /
+    normalize (state shared between the equations of one component must not leak from one to the next)"""
+    neq = rng.choice([2, 2, 3, 4])
+    c = {'comp': k, 'eqs': [], 'ctor': rng.random() < 0.5, 'ulps': 0}
+    x, mags = [], [Fraction(1)]
+    pattern = [rng.random() < 0.5 for _ in range(neq)]
+    if rng.random() < 0.5 and neq >= 2:
+        pattern[0], pattern[-1] = True, False          # a multiplier first, none later
+    for um in pattern:
+        N = rng.choice([1, 1, 2, 3])
+        eq = {'n': N, 'use_mult': um, 'normalize': rng.random() < 0.6,
+              'mult_val': jq(rng.choice([Fraction(2), Fraction(-3), Fraction(1, 2), Fraction(5, 4)])),
+              'rhs_val': jq(rng.choice(RHS_POOL))}
+        lhs = [dy(rng) for _ in range(N)]
+        rhs = [rng.choice(RHS_POOL) for _ in range(N)]
+        mul = [rng.choice([Fraction(2), Fraction(-3), Fraction(1, 2), Fraction(5, 4), Fraction(-7, 4), Fraction(3)])
+               for _ in range(N)] if um else []
+        x += lhs + rhs + mul
+        if eq['normalize']:
+            c['ulps'] = 16
+        mags.append(max(abs(m * l) + abs(r) + 1 for m, l, r in zip(mul or [Fraction(1)] * N, lhs, rhs)))
+        c['eqs'].append(eq)
+    c['x'] = [jq(v) for v in x]
+    c['mag'] = jq(max(mags))
+    c['variant'] = ''.join('m' if e['use_mult'] else '-' for e in c['eqs']) + (':ctor' if c['ctor'] else '')
+    return c
+
+
 class C26(Spec):
     pid = 'C26'
     imports = ['Expr.Expr', 'C26.Model']
@@ -204,6 +237,8 @@ class C26(Spec):
             cases.append({'comp': 'self_product', 'which': 'dot', 'x': [jq(dy(rng)) for _ in range(rng.choice([1, 2, 3]))]})
             cases.append({'comp': 'self_product', 'which': 'cross', 'x': [jq(dy(rng)) for _ in range(3)]})
         cases += [gen_spline(rng) for _ in range(40 if tier == 'quick' else 500)]
+        for k in ('eqmulti', 'balmulti'):
+            cases += [gen_multi(rng, k) for _ in range(40 if tier == 'quick' else 400)]
         return cases
 
     def search_gen(self, tier, rng):
